@@ -649,18 +649,27 @@ func (mf *MultiFileAppendable) appendableFor(off int64) (appendable.Appendable, 
 	}
 
 	mf.mutex.Lock()
-	defer mf.mutex.Unlock()
 
 	if mf.closed {
+		mf.mutex.Unlock()
 		return nil, ErrAlreadyClosed
 	}
 
 	app, err := mf.appendables.Get(appID)
+	if errors.Is(err, cache.ErrKeyNotFound) {
+		// The mutex was released after the chunk was inserted into the cache:
+		// another reader, a chunk rotation or a read-ahead may have evicted it
+		// in the meantime. That is a miss, not an error: start over.
+		mf.mutex.Unlock()
+		return mf.appendableFor(off)
+	}
 	if err != nil {
+		mf.mutex.Unlock()
 		return nil, err
 	}
 
 	mf.maybePrefetchAheadLocked(appID)
+	mf.mutex.Unlock()
 	return app, nil
 }
 
